@@ -22,7 +22,7 @@ from simkit.world import quiet_logging
 
 from gallia.services.uds.server import RandomUDSServer
 
-BASE_ENV = {"hashseed": "0", "epoch": 0.0, "pace": 1.0, "pollute": None, "import_first": "server", "tz": None, "steps_back": 0.0, "sibling": False}
+BASE_ENV = {"hashseed": "0", "epoch": 0.0, "pace": 1.0, "pollute": None, "import_first": "server", "tz": None, "steps_back": 0.0, "sibling": False, "restart": False}
 
 
 def run_child(env: dict[str, Any], cases: list[dict[str, Any]]) -> dict[str, Any]:
@@ -72,7 +72,7 @@ class C16(Check):
     rule = (
         "cases = seeds {0, 1, 3, 2^63, random} x randomness parameters x behaviour switches x request histories (C13 generator, incl. seed/key pairs); "
         "each case list is executed in 9 fresh interpreters: baseline (PYTHONHASHSEED=0) and variants changing exactly one of {PYTHONHASHSEED=1|4242|random, "
-        "virtual epoch + pacing, polluted and consumed global random state, import order (whole command tree first), TZ, a sibling ECU with the same seed but other arguments that lived in the process before} plus one changing all; 30 % of the cases "
+        "virtual epoch + pacing, polluted and consumed global random state, import order (whole command tree first), TZ, a sibling ECU with the same seed but other arguments that lived in the process before, an ECU object that is torn down and set up a second time (restart) before it serves} plus one changing all; 30 % of the cases "
         "through the real RngVirtualECU command (tcp / unix-lines) on the simulated network. non-trivial = a case whose transcript contains a positive "
         "non-default reply; distinct = distinct (model digest, transcript digest) pairs."
     )
@@ -131,7 +131,8 @@ class C16(Check):
             ("import-order", {"import_first": "commands"}),
             ("tz", {"tz": rng.choice(["Asia/Kolkata", "America/St_Johns", "UTC", "Pacific/Chatham"])}),
             ("sibling", {"sibling": True}),
-            ("all", {"hashseed": "random", "epoch": 9.9e8, "pace": 3.0, "pollute": 4711, "import_first": "commands", "tz": "Asia/Tokyo", "steps_back": 30.0, "sibling": True}),
+            ("restart", {"restart": True}),
+            ("all", {"restart": True, "hashseed": "random", "epoch": 9.9e8, "pace": 3.0, "pollute": 4711, "import_first": "commands", "tz": "Asia/Tokyo", "steps_back": 30.0, "sibling": True}),
         ]
         plan["envs"] = [["baseline", dict(BASE_ENV)]] + [[name, {**BASE_ENV, **delta}] for name, delta in variants]
         return plan
